@@ -1539,6 +1539,15 @@ def build_rich_mod_case(rng):
                 tags.add('replace_' + ('atomname_None' if rep.get('atomname', 0) is None else
                                        'atomname' if 'atomname' in rep else
                                        'resid_or_cg' if ('resid' in rep or 'charge_group' in rep) else 'other'))
+        if hosts and rng.random() < 0.15:
+            # a second node of the modification with the atom name of the first host: both are laid over the
+            # same particle, which must list the modification once
+            h = hosts[0]
+            anchors = [f for f, ws in m.mapping.items() if h in ws]
+            if anchors:
+                bt.add_node(h + 'x', atomname=bt.nodes[h]['atomname'], PTM_atom=False, resname='X')
+                m.mapping[anchors[0]][h + 'x'] = 1
+                tags.add('two_nodes_of_a_modification_on_one_particle')
         for q in news:
             if rng.random() < 0.2:
                 bt.nodes[q]['replace'] = {'atype': 'P9'}
@@ -1570,6 +1579,8 @@ def build_rich_mod_case(rng):
             blk.block_to.log_entries['info']['block entry'] = []
         if rng.random() < 0.3:
             blk.block_to.add_interaction('position_restraints', ['B1'], ['1', '1000'])
+        if rng.random() < 0.5:
+            blk.block_to.nodes['B1']['mark'] = 0      # an attribute a `replace` dictionary has to OVERWRITE
     for n in mol.nodes:
         a = mol.nodes[n]
         r = rng.random()
@@ -1584,7 +1595,7 @@ def build_rich_mod_case(rng):
     return mol, mappings, ffb, meta, cfg, tags
 
 
-def rich_oracle(mol, out, logs, mods, rawm):
+def rich_oracle(mol, out, logs, mods, rawm, cfg=((), (), ())):
     """what holds whatever the `replace` dictionaries do"""
     errs = []
     types = [(lvl, typ) for lvl, typ, _ in logs]
@@ -1602,6 +1613,16 @@ def rich_oracle(mol, out, logs, mods, rawm):
         ml = out.nodes[n].get('modifications')
         if ml is not None and len({id(x) for x in ml}) != len(ml):
             errs.append(('modifications_recorded', 'particle %r lists a modification twice' % (n,)))
+        # a `replace` value for an attribute nothing else writes: when exactly one node of the particle's
+        # modifications (same atom name, not a new particle) declares it, the particle carries it
+        for attr in [x for x in ('atype', 'mark') if x not in cfg[0] + cfg[1] + cfg[2]]:
+            cands = [a['replace'][attr] for x in (ml or []) for _, a in x.nodes(data=True)
+                     if not a.get('PTM_atom') and attr in a.get('replace', {})
+                     and a.get('atomname') == out.nodes[n].get('atomname')]
+            renamed = any('atomname' in a.get('replace', {}) for x in (ml or []) for _, a in x.nodes(data=True))
+            if len(cands) == 1 and not renamed and out.nodes[n].get(attr, '<absent>') != cands[0]:
+                errs.append(('replace_applied', 'particle %r: %s = %r, its modification declares replace %r'
+                             % (n, attr, out.nodes[n].get(attr, '<absent>'), cands[0])))
     return errs
 
 
@@ -1620,7 +1641,7 @@ for i in range(3000 if chk.thorough else 250):
         impl += canon_x_tail(out, npre)
         if npre != len(out):
             tags.add('particles_removed')
-        errs = rich_oracle(mol, out, logs, mods, rawm)
+        errs = rich_oracle(mol, out, logs, mods, rawm, cfg)
         if any(msg.startswith('Interaction set by multiple') for _, _, msg in logs):
             tags.add('warning_multiple_modification_mappings')
         if any(len(out.nodes[k].get('modifications', []) or []) >= 2 for k in out.nodes):
